@@ -106,10 +106,14 @@ theorem pick_irrelevant {α : Type} (own : Bool) (fresh : List α) (leak : Bool)
     have : carried = [] := by simpa using h
     simp [this]
 
+/-- the tag map of a type is its own when `srcTagMap` is re-made for every type -/
+theorem tagsIn_of_false (lk : Leaks) (h : lk.mapTag = false) (st : MSt) (t : MType) : tagsIn lk st t = tagTable t.tags := by
+  simp [tagsIn, h]
+
 theorem mapStep_noLeaks (files : Disk) (st : MSt) (t : MType) :
     (mapStep noLeaks files st t).2 = (mapStep noLeaks files {} t).2 := by
   simp only [mapStep, noLeaks]
-  cases t.dest <;> simp [pick]
+  cases t.dest <;> simp [pick, tagsIn]
 
 theorem mapStep_irrelevant (files : Disk) (st : MSt) (t : MType)
     (h1 : mapCtorRelevant st t = false) (h2 : mapAccRelevant st t = false) :
@@ -121,7 +125,7 @@ theorem mapStep_irrelevant (files : Disk) (st : MSt) (t : MType)
     rw [hd] at h1 h2
     simp only [Bool.or_eq_false_iff] at h1 h2
     simp only [pick_irrelevant _ _ _ _ h1.1, pick_irrelevant _ _ _ _ h1.2, pick_irrelevant _ _ _ _ h2.1,
-      pick_irrelevant _ _ _ _ h2.2]
+      pick_irrelevant _ _ _ _ h2.2, tagsIn_of_false codeBeforeFix rfl]
 
 /-! ### the driver loop -/
 
